@@ -130,15 +130,65 @@ pub fn check(case: &Case, t: &mut Tally) -> CaseResult {
     Ok(())
 }
 
+type BigCase = (u16, u8, u8, u16);
+
+/// Size thresholds inside the encoders: a change of more than 10 000 ops (another op-column encoder is used above
+/// that size) and a bundle whose change-metadata columns exceed the 256-byte compression threshold (long messages).
+pub fn check_big(case: &BigCase, t: &mut Tally) -> CaseResult {
+    use automerge::transaction::{CommitOptions, Transactable};
+    let (nops, enc, nchanges, msglen) = case;
+    let enc = crate::engine::interp::encoding(*enc);
+    let mut d = Automerge::new_with_encoding(enc).with_actor(automerge::ActorId::from(vec![0x18u8, 1]));
+    let mut tx = d.transaction();
+    let text = tx.put_object(automerge::ROOT, "t", automerge::ObjType::Text).map_err(|e| Failure::new("C18:big:setup", e.to_string()))?;
+    let body: String = (0..*nops as usize).map(|i| (b'a' + (i % 23) as u8) as char).collect();
+    tx.splice_text(&text, 0, 0, &body).map_err(|e| Failure::new("C18:big:setup", e.to_string()))?;
+    tx.commit_with(CommitOptions::default().with_time(7));
+    // many small changes with long messages
+    for i in 0..*nchanges {
+        let mut tx = d.transaction();
+        tx.put(automerge::ROOT, "k", i as i64).map_err(|e| Failure::new("C18:big:setup", e.to_string()))?;
+        let msg: String = (0..*msglen as usize).map(|j| (b'A' + ((i as usize + j) % 26) as u8) as char).collect();
+        tx.commit_with(CommitOptions::default().with_message(msg).with_time(i as i64));
+    }
+    let changes = d.get_changes(&[]);
+    for c in &changes {
+        let again = catch("Change::from(decode())", || Change::from(c.decode()))?;
+        ensure!(again.hash() == c.hash(), "C18:decode-encode:hash", "a change of {} ops: Change::from(c.decode()) has hash {} instead of {}", c.len(), again.hash(), c.hash());
+        ensure!(again.raw_bytes() == c.raw_bytes(), "C18:decode-encode:bytes", "a change of {} ops: Change::from(c.decode()) has different bytes", c.len());
+        let parsed = catch("from_bytes", || Change::from_bytes(again.raw_bytes().to_vec()))?;
+        ensure!(parsed.is_ok(), "C18:decode-encode:does-not-parse", "the re-encoded change of {} ops does not parse: {:?}", c.len(), parsed.err().map(|e| e.to_string()));
+        t.extra_evals += 1;
+    }
+    let hashes: Vec<ChangeHash> = changes.iter().map(|c| c.hash()).collect();
+    let b = catch("bundle", || d.bundle(hashes.iter().copied()))?.map_err(|e| Failure::new("C18:bundle:error", e.to_string()))?;
+    let bytes = b.bytes().to_vec();
+    let parsed = catch("Bundle::try_from", || Bundle::try_from(&bytes[..]))?;
+    let Ok(parsed) = parsed else {
+        return Err(Failure::new("C18:bundle:bytes-do-not-parse", format!("the bytes of a bundle of {} changes ({} bytes) do not parse: {:?}", changes.len(), bytes.len(), parsed.err().map(|e| e.to_string()))));
+    };
+    let back = catch("to_changes", || parsed.to_changes())?.map_err(|e| Failure::new("C18:bundle:to_changes", e.to_string()))?;
+    let got: HashSet<ChangeHash> = back.iter().map(|c| c.hash()).collect();
+    ensure!(got == hashes.iter().copied().collect::<HashSet<_>>(), "C18:bundle:changes-differ", "bundle bytes decode to different changes");
+    let mut fresh_doc = Automerge::new_with_encoding(enc);
+    catch("load_incremental(bundle)", || fresh_doc.load_incremental(&bytes))?.map_err(|e| Failure::new("C18:bundle:load_incremental", e.to_string()))?;
+    ensure!(heads_sorted(&fresh_doc) == heads_sorted(&d), "C18:bundle:load-heads", "loading the bundle bytes gives other heads");
+    t.class(if *nops > 10000 { "change_above_10000_ops" } else { "change_up_to_10000_ops" });
+    t.class(if (*nchanges as usize) * (*msglen as usize) >= 256 { "bundle_metadata_above_256_bytes" } else { "bundle_metadata_small" });
+    t.nontrivial();
+    Ok(())
+}
+
 pub fn property(_ctx: &Ctx) -> Property {
     Property {
         id: "C18",
         level: "exploration",
-        rule: "every change of proptest-generated histories (with a generated bulk prefix so that some changes exceed the 256-byte DEFLATE threshold; messages, timestamps, many actors, marks, all scalar kinds): from_bytes(raw_bytes) and from_bytes(bytes()) give an equal change with the same hash; Change::from(c.decode()) has the same hash and bytes; the expanded change with generated message/time/extra bytes survives encode -> from_bytes -> decode. Bundles: bundle(X).to_changes() and Bundle::try_from(bytes).to_changes() return byte-identical changes for a generated subset X of the history; for X = everything outside ancestors(recorded heads), load_incremental(bundle bytes) on a document holding the ancestors equals apply_changes(X) (heads and observation). Non-trivial = a compressed change, or a non-contiguous bundle spanning >=2 actors; distinct by case. evaluations counts changes/bundles verified.",
+        rule: "every change of proptest-generated histories (with a generated bulk prefix so that some changes exceed the 256-byte DEFLATE threshold; messages, timestamps, many actors, marks, all scalar kinds): from_bytes(raw_bytes) and from_bytes(bytes()) give an equal change with the same hash; Change::from(c.decode()) has the same hash and bytes; the expanded change with generated message/time/extra bytes survives encode -> from_bytes -> decode. Bundles: bundle(X).to_changes() and Bundle::try_from(bytes).to_changes() return byte-identical changes for a generated subset X of the history; for X = everything outside ancestors(recorded heads), load_incremental(bundle bytes) on a document holding the ancestors equals apply_changes(X) (heads and observation). (size-thresholds) a change of 9990..10060 ops and 1..40 changes with 8..60 character messages: the same round trips across the encoder size thresholds (10 000 ops; 256-byte bundle metadata columns). Non-trivial = a compressed change, or a non-contiguous bundle spanning >=2 actors; distinct by case. evaluations counts changes/bundles verified.",
         assumptions: &[],
         subs: vec![
             sub::<Case, _, _>("history", 4000, 100000, |c| (program_strategy(HISTORY, if c.thorough() { 100 } else { 40 }, 4, 4), Just(0u8), any::<u64>()), check),
             sub::<Case, _, _>("bulk", 600, 15000, |c| (program_strategy(HISTORY, if c.thorough() { 60 } else { 25 }, 3, 4), 1u8..4, any::<u64>()), check),
+            sub::<BigCase, _, _>("size-thresholds", 32, 400, |_| (9990u16..10060, 0u8..4, 1u8..40, 8u16..60), check_big),
         ],
     }
 }
